@@ -247,6 +247,17 @@ def c09(chk):
         count_cases(chk, summ, lambda r: (
             (r["ev"], r.get("reason"), "removed" in r) if r["ev"] in ("h.closing", "ap.remove_id", "obs.quiesce") else None))
     sample_events(chk, summ, ("h.closing", "obs.quiesce", "obs.rpc_result"), n=4)
+    # valid but unusual configurations on one side only (no uni streams on the listener, one bidi stream,
+    # tiny windows, one-slot mailbox, keep-alive on the other side only, ...): connected, listed, reachable
+    # both ways, kept alive through an idle period, clean shutdown - whatever the setting
+    import copy
+    odd = harness("oddcfg", out=os.path.join(vlib.WORK, "C09_oddcfg"), seed=chk.seed * 24, runs=24 if quick(chk) else 240,
+                  jobs=12, files=4)
+    odd["args"] = {}
+    odd2 = copy.deepcopy(odd)
+    trace_check(chk, *CONN_TRACE, odd, label="oddcfg")
+    trace_check(chk, "AnemoRpcTrace.tla", "AnemoRpcTrace.cfg", odd2, label="oddcfg-rpc")
+    chk.traces -= len(odd2["runs"])
     if not quick(chk):
         spec_mutant(chk, "remove_by_peer_c09", "MC_Conn.tla", "MC_Conn_quick.cfg", [MUT_REMOVE_BY_PEER])
 
